@@ -84,7 +84,7 @@ def run_impl(ctx, exe, lines, timeout=600):
     out = {}
     todo = list(lines)
     guard = 0
-    while todo and guard < 50:
+    while todo and guard < 12:
         guard += 1
         r = ctx.run(exe, "".join(t + "\n" for _, t in todo), timeout=timeout)
         last = None
